@@ -429,6 +429,7 @@ type FuncContract struct {
 	Results   []SVar
 	Assigns   []string
 	Ghost     []string // free-form directives understood by the executor
+	Implements string  // name of the fnfield contract a closure implements
 	Props     []string // property ids this function is listed under
 	File      string
 	Line      int
@@ -472,6 +473,7 @@ type Contracts struct {
 	TypeInvs   []*TypeInv
 	Lemmas     []*Lemma
 	Directives []*Directive
+	FnFields   []*FuncContract
 }
 
 func NewContracts() *Contracts {
@@ -594,8 +596,9 @@ func (cs *Contracts) LoadContractFile(path, pkg string, assumedFile bool) error 
 			}
 			cs.Specs[sf.Name] = sf
 			cur = nil
-		case "func", "assume":
+		case "func", "assume", "fnfield":
 			assumed := assumedFile
+			isFnField := word == "fnfield"
 			if word == "assume" {
 				assumed = true
 				w2, r2 := splitWord(rest)
@@ -617,6 +620,11 @@ func (cs *Contracts) LoadContractFile(path, pkg string, assumedFile bool) error 
 			key := fc.Name
 			if pkg != "" && !assumedFile {
 				key = pkg + "." + fc.Name
+			}
+			if isFnField {
+				key = "fnfield:" + fc.Name
+				fc.Assumed = true // verified through the closures that implement it
+				cs.FnFields = append(cs.FnFields, fc)
 			}
 			cs.Funcs[key] = fc
 			cur = fc
@@ -698,7 +706,9 @@ func (cs *Contracts) LoadContractFile(path, pkg string, assumedFile bool) error 
 			cs.Lemmas = append(cs.Lemmas, &Lemma{Name: strings.TrimSpace(rest[:i]), Expr: c, Pkg: pkg, Props: pendingProps})
 			pendingProps = nil
 			cur = nil
-		case "lock", "field", "iface", "fnfield", "chan", "guard", "level", "sum", "endpoint":
+		case "implements":
+			cur.Implements = strings.TrimSpace(rest)
+		case "lock", "field", "iface", "chan", "guard", "level", "sum", "endpoint":
 			cs.Directives = append(cs.Directives, &Directive{Kind: word, Text: rest, Pkg: pkg, File: path, Line: ln + 1})
 		default:
 			return fail(fmt.Errorf("unknown contract keyword %q", word))
